@@ -196,6 +196,11 @@ Theorem C01_client_step_count_is_documented : forall N bs e s (drop : bool),
         end).
 Proof. exact shuffle_num_steps_documented. Qed.
 
+(* nothing in fed_avg.py / tree_util.py depends on the interpreter process (no hash(), id(), time, uuid, os.environ,
+   unseeded random): recogniser; the harness also runs cases in a second interpreter with another PYTHONHASHSEED *)
+Theorem C01_source_is_process_independent : Gen_fed_avg.process_independent = true /\ Gen_tree_l2.process_independent = true.
+Proof. exact gen_fedavg_process_independent. Qed.
+
 (* the hypotheses of the round theorems are satisfiable: a concrete cohort with distinct ids and shape-preserving
    local training (wf_round), one client without examples *)
 Example C01_hypotheses_satisfiable :
@@ -237,3 +242,4 @@ Print Assumptions C01_evaluated_instance_is_source_apply.
 Print Assumptions C01_diagnostics_value_is_squared_l2_norm.
 Print Assumptions C01_source_init_and_wiring.
 Print Assumptions C01_client_step_count_is_documented.
+Print Assumptions C01_source_is_process_independent.
